@@ -369,7 +369,12 @@ func replayAtomicPath(rep *vh.Report, mo *monitor, ttl, cleanup int, slots []str
 		var got string
 		hung := false
 		call := func(f func()) {
-			ok, dump := vh.WithWatchdog(watchdog, f)
+			ok, pv, dump := guarded(watchdog, f)
+			if pv != "" {
+				hung, hungAny = true, true
+				rep.Violate("C17/pool/panic", fmt.Sprintf("%s: %s(%s) panicked: %s", mo.ctx, a.Act, a.argString(), pv), replayObj)
+				return
+			}
 			if !ok {
 				hung = true
 				hungAny = true
@@ -498,8 +503,13 @@ func replayAtomicPath(rep *vh.Report, mo *monitor, ttl, cleanup int, slots []str
 			return fail(i, "unknown model action %q", a.Act)
 		}
 		res.steps++
+		for _, pv := range s.takePanics() {
+			hungAny = true
+			rep.Violate("C17/pool/panic", fmt.Sprintf("%s: panic in the real pool during %s(%s): %s", mo.ctx, a.Act, a.argString(), pv), replayObj)
+			return fail(i, "panic")
+		}
 		if hung {
-			return fail(i, "call hung")
+			return fail(i, "call hung or panicked")
 		}
 		rpool, ritems := rp.snapshot()
 		mo.checkCounters(rpool, replayObj)
